@@ -4,13 +4,44 @@ import (
 	"errors"
 	"fmt"
 	"math"
-	"regexp"
+	"math/big"
 	"strconv"
 	"strings"
 )
 
-var stringToNumberParseInteger = regexp.MustCompile(`^(?:0[xX])`)
+// isStrUnsignedDecimalLiteral reports whether value is a StrUnsignedDecimalLiteral
+// other than Infinity (ES5 9.3.1): digits with an optional fraction and an
+// optional exponent, and nothing else.
+func isStrUnsignedDecimalLiteral(value string) bool {
+	index, length := 0, len(value)
+	digits := func() int {
+		start := index
+		for index < length && value[index] >= '0' && value[index] <= '9' {
+			index++
+		}
+		return index - start
+	}
+	count := digits()
+	if index < length && value[index] == '.' {
+		index++
+		count += digits()
+	}
+	if count == 0 {
+		return false
+	}
+	if index < length && (value[index] == 'e' || value[index] == 'E') {
+		index++
+		if index < length && (value[index] == '+' || value[index] == '-') {
+			index++
+		}
+		if digits() == 0 {
+			return false
+		}
+	}
+	return index == length
+}
 
+// parseNumber is ToNumber applied to the String type (ES5 9.3.1).
 func parseNumber(value string) float64 {
 	value = strings.Trim(value, builtinStringTrimWhitespace)
 
@@ -18,29 +49,29 @@ func parseNumber(value string) float64 {
 		return 0
 	}
 
-	var parseFloat bool
-	switch {
-	case strings.ContainsRune(value, '.'):
-		parseFloat = true
-	case stringToNumberParseInteger.MatchString(value):
-		parseFloat = false
-	default:
-		parseFloat = true
-	}
-
-	if parseFloat {
-		number, err := strconv.ParseFloat(value, 64)
-		if err != nil && !errors.Is(err, strconv.ErrRange) {
+	if len(value) > 2 && value[0] == '0' && (value[1] == 'x' || value[1] == 'X') {
+		// HexIntegerLiteral: no sign, hex digits only, any magnitude.
+		number, ok := new(big.Int).SetString(value[2:], 16)
+		if !ok || strings.ContainsAny(value[2:], "+-_") {
 			return math.NaN()
 		}
-		return number
+		result, _ := new(big.Float).SetInt(number).Float64()
+		return result
 	}
 
-	number, err := strconv.ParseInt(value, 0, 64)
-	if err != nil {
+	unsigned := value
+	if unsigned[0] == '+' || unsigned[0] == '-' {
+		unsigned = unsigned[1:]
+	}
+	if unsigned != "Infinity" && !isStrUnsignedDecimalLiteral(unsigned) {
 		return math.NaN()
 	}
-	return float64(number)
+
+	number, err := strconv.ParseFloat(value, 64)
+	if err != nil && !errors.Is(err, strconv.ErrRange) {
+		return math.NaN()
+	}
+	return number
 }
 
 func (v Value) float64() float64 {
